@@ -97,21 +97,37 @@ PROPS['C11'] = dict(
     technique='Verus postconditions that define every limb of the selected column from the inputs only, plus frame clauses over all other limb blocks, on the extracted real text',
     level_text='Unbounded proof for the coefficient-domain column operations: each ensures gives final(res).limb(col, j) for all j < size as a function of the read-only inputs (no old(res) on the right-hand side for out-of-place ops) and frame_ok: every block outside (col, 0..size) is unchanged.',
     level_note='Covers the vec_znx_* reference operations under contract (see functions_under_contract); the DFT-family operations and the core layer are not covered by this check (no abstract-kernel harness built yet).',
-    units=[V('vec_znx_arith'), V('vec_znx_ring'), V('vec_znx_merge'), V('vec_znx_big'), V('vec_znx_normalize')],
+    units=[V('vec_znx_arith'), V('vec_znx_ring'), V('vec_znx_merge'), V('vec_znx_big'), V('vec_znx_normalize'),
+           K('poulpy-cpu-ref', 'verif_kani::c11_ak', ['c11_ak_dft_apply__a3_r2_step2_off1', 'c11_ak_dft_apply__a2_r3_step1_off0', 'c11_ak_dft_apply__a3_r3_step2_off0', 'c11_ak_dft_apply__a2_r2_step1_off1'],
+             cls='bounded', tier='thorough', timeout=1500, bound='FFT64Ref, N=8, two output columns, (a_size, res_size, step, offset) constant per harness; numeric kernels abstract',
+             functions=['VecZnxDftApply::vec_znx_dft_apply (fft64 reference, real shape logic; fft_ref / reim_from_znx_i64_ref / table fills replaced by bit-level mixers)'],
+             trusted=['abstract kernels: fft_ref -> identity, reim_from_znx_i64_ref -> bit-cast, fill_fft4/ifft4_omegas -> no-op (two-run determinism and frame only)'])],
     trusted_base=VERUS_TRUST,
     assumptions=['operands are distinct objects from the result (Rust borrow rules: &mut res vs &a)'],
-    remainder='DFT-domain operations (vec_znx_dft_*, svp_*, vmp_*, cnv_*), vec_znx_big_*, cross-radix normalisation, shifts, core-layer operations',
+    remainder='DFT-domain operations other than vec_znx_dft_apply (svp_*, vmp_*: two-run harness written but CBMC times out, cnv_*), NTT120 big accumulator, cross-radix normalisation, shifts, core-layer operations',
 )
 
 PROPS['C08'] = dict(
     level='proof',
     technique='Kani function-level contracts on the real digit/carry and step kernels (uniform law x_out + c_out*2^b == a*2^lsh + c_in) per radix, imported as trait contracts into a Verus value theorem for vec_znx_normalize_assign',
     level_text='Kernel law: complete in all 64-bit values, lsh and carries for each radix constant (quick: 7 radices, thorough: all 1..62). Limb loop: unbounded Verus proof that in-place normalisation preserves the torus value mod 1 and leaves every digit balanced.',
-    level_note='The Verus theorem imports the kernel law as trait contracts (cross-engine chain); cross-radix normalisation, shifts and encode/decode are not covered by this check.',
-    units=kernel_units() + [V('vec_znx_normalize')],
+    level_note='The Verus theorem imports the kernel law as trait contracts (cross-engine chain); out-of-place/cross-radix normalisation and shifts are covered only by bounded harnesses (N=1, small radices, constant offsets) reported under bounded_checks; encode/decode are not covered.',
+    units=kernel_units() + [V('vec_znx_normalize'),
+        K('poulpy-cpu-ref', 'verif_kani::c08_shift', ['c08_shift__b4_s2_k0', 'c08_shift__b4_s2_k5', 'c08_shift__b4_s2_k9'], cls='bounded', timeout=900,
+          bound='N=1, radix 4, size 2, shift amount constant; limbs un-normalised (|x| < 2^12)',
+          functions=['vec_znx_lsh', 'vec_znx_rsh', 'vec_znx_lsh_assign', 'vec_znx_rsh_assign']),
+        K('poulpy-cpu-ref', 'verif_kani::c08_norm', ['c08_normalize__b4_b4_s2_s2_offm5', 'c08_normalize__b4_b4_s2_s1_offm4', 'c08_normalize__b3_b4_s2_s2_off0', 'c08_normalize__b5_b4_s2_s2_offm2'],
+          cls='bounded', timeout=900, bound='N=1, sizes <= 2, radices 3..5, signed offset constant; limbs un-normalised (|x| < 2^20), stale result contents',
+          functions=['vec_znx_normalize (vec_znx_normalize_inter_base2k, vec_znx_normalize_cross_base2k)']),
+        K('poulpy-cpu-ref', 'verif_kani::c08_shift', ['c08_shift__b4_s2_k1', 'c08_shift__b4_s2_k3', 'c08_shift__b4_s2_k4', 'c08_shift__b4_s2_k8', 'c08_shift__b4_s2_k13',
+          'c08_rsh_gap__b4_s2_k9', 'c08_rsh_gap__b4_s2_k13'], cls='bounded', tier='thorough', timeout=900, bound='as above'),
+        K('poulpy-cpu-ref', 'verif_kani::c08_norm', ['c08_normalize__b4_b4_s2_s2_off0', 'c08_normalize__b4_b4_s2_s2_off3', 'c08_normalize__b4_b4_s1_s2_off4', 'c08_normalize__b4_b4_s2_s2_off9',
+          'c08_normalize__b4_b3_s2_s2_off0', 'c08_normalize__b4_b5_s2_s1_off1', 'c08_normalize__b4_b4_s1_s1_offm9_gap', 'c08_normalize__b4_b4_s1_s1_offm5_gap'],
+          cls='bounded', tier='thorough', timeout=900, bound='as above'),
+    ],
     trusted_base=VERUS_TRUST + ['kernel law per radix imported from Kani harnesses c08_{first,middle,final,digit}_b<radix> (quick tier discharges radices %s only)' % KERNEL_QUICK],
     assumptions=['inputs within the documented headroom |x| <= 2^61 (normalize_assign) / |a| <= 2^62, |carry| <= 2^61 (kernels)'],
-    remainder='vec_znx_normalize (out-of-place, cross-radix, signed offsets), vec_znx_lsh/rsh, fused big-normalise forms, encode/decode',
+    remainder='vec_znx_normalize and shifts beyond the bounded shapes (only N=1, small radices); right shifts that leave an empty limb gap (open known finding, DESIGN §6-10); fused big-normalise forms; encode/decode',
 )
 
 PROPS['C12'] = dict(
@@ -124,6 +140,10 @@ PROPS['C12'] = dict(
           'c12_take_slice_default_u8', 'c12_take_slice_default_i64', 'c12_take_slice_default_f64', 'c12_take_slice_default_i128'], cls='complete', timeout=600,
           functions=['hal_defaults::scratch::take_slice_aligned', 'HalScratchDefaults::take_slice_default', 'HalScratchDefaults::scratch_available_default', 'HalScratchDefaults::scratch_from_bytes_default']),
         V('vec_znx_ring'), V('vec_znx_normalize'), V('hal_glue'),
+        K('poulpy-cpu-ref', 'verif_kani::c12_window', ['c12_exact_window_coeff_ops__n4'], cls='bounded', timeout=1500,
+          bound='N=4 (limb byte size 32: not a multiple of the 64-byte alignment), size 2',
+          functions=['HAL traits VecZnx{Normalize,Rotate,Automorphism,MulXpMinusOne,Lsh,Rsh}Assign with a scratch of exactly the companion *_tmp_bytes; two runs with different scratch contents']),
+        K('poulpy-cpu-ref', 'verif_kani::c12_window', ['c12_exact_window_coeff_ops__n2', 'c12_exact_window_coeff_ops__n8'], cls='bounded', tier='thorough', timeout=1500, bound='N=2, N=8'),
     ],
     trusted_base=VERUS_TRUST,
     assumptions=['buffer lengths <= 192 bytes in the allocator harnesses (the code is length-generic: no loop, pure pointer arithmetic)'],
@@ -171,7 +191,7 @@ PROPS['C18'] = dict(
     level='proof',
     technique='Kani contract check of the real VecZnx read_from/write_to: header bytes fully symbolic, every truncation point, Ok => consistent, Err => metadata unchanged',
     level_text='Complete in the header domain (2^320 headers) for a receiver of fixed capacity: no panic/overflow/OOB on any path, Ok implies size <= max_size and n*cols*max_size*8 <= buffer and fields equal the header, Err leaves metadata unchanged; every truncation point of a valid stream is rejected.',
-    level_note='Receiver capacity fixed at 32 bytes (the code is capacity-generic); round trip is bounded in shape (thorough tier); core/bin-fhe wrapper types commit scalar fields before the inner read (DESIGN §6-5) and are not covered by this check.',
+    level_note='Receiver capacity fixed at 32 bytes (the code is capacity-generic); round trip is bounded in shape (thorough tier); GLWE/LWE/GLWECompressed wrappers are covered for truncation; the compound wrapper types (GGLWE, GGSW, keys, bin-fhe keys) still commit scalar fields before the inner read (DESIGN §6-5) and are not covered.',
     units=[
         K('poulpy-hal', 'layouts::vec_znx::verif_kani', ['c18_vec_znx_read_header', 'c18_vec_znx_read_truncated'], cls='complete', timeout=1500,
           functions=['<VecZnx as ReaderFrom>::read_from']),
@@ -179,6 +199,8 @@ PROPS['C18'] = dict(
           functions=['<ScalarZnx as ReaderFrom>::read_from']),
         K('poulpy-hal', 'layouts::mat_znx::verif_kani', ['c18_mat_znx_read_header'], cls='complete', timeout=1500,
           functions=['<MatZnx as ReaderFrom>::read_from']),
+        K('poulpy-cpu-ref', 'verif_kani::c18_wrappers', ['c18_glwe_read_truncated', 'c18_lwe_read_truncated', 'c18_glwe_compressed_read_truncated'], cls='complete', timeout=900,
+          functions=['<GLWE as ReaderFrom>::read_from', '<LWE as ReaderFrom>::read_from', '<GLWECompressed as ReaderFrom>::read_from (every truncation point of a valid stream: Err leaves metadata unchanged)']),
         K('poulpy-hal', 'layouts::vec_znx::verif_kani', ['c18_vec_znx_round_trip__coeffs4'], cls='bounded', tier='thorough', timeout=2400,
           bound='n*cols*size <= 4 coefficients, contents symbolic', functions=['<VecZnx as WriterTo>::write_to']),
     ],
@@ -246,9 +268,11 @@ PROPS['C02'] = dict(
     level_text='Bounded in shape (N = 2/4, ranks 0..2, sizes 1..2), complete in limb values and in the rotation amount (all i64): add, sub, their in-place forms, negate, copy, rotate, rotate_assign, mul_xp_minus_one equal the ring operation applied column by column with the documented size and rank rule; column-wise equality implies phase equality for every key.',
     level_note='GGSW variants, shifts (lsh/rsh) and glwe_normalize (incl. cross-radix) are not covered; the HAL operations underneath are proved unbounded in the C09 check.',
     explanation=BOUNDED_EXPL,
-    units=[K('poulpy-cpu-ref', 'verif_kani::c02', ['c02_glwe_add_sub__ranks_1_1', 'c02_glwe_add_sub__ranks_2_0', 'c02_glwe_add_sub__ranks_0_1', 'c02_glwe_assign_negate_copy__rank1', 'c02_glwe_rotate_mul_xp__n4_rank1'],
-             cls='bounded', timeout=1500, bound='N=2 (N=4 for rotations), ranks 0..2, sizes 1..2',
+    units=[K('poulpy-cpu-ref', 'verif_kani::c02', ['c02_glwe_add_sub__ranks_1_1', 'c02_glwe_add_sub__ranks_2_0', 'c02_glwe_add_sub__ranks_0_1', 'c02_glwe_assign_negate_copy__rank1'],
+             cls='bounded', timeout=1500, bound='N=2, ranks 0..2, sizes 1..2',
              functions=['GLWEAdd::glwe_add_into/assign', 'GLWESub::glwe_sub/sub_assign', 'GLWENegate::glwe_negate', 'GLWECopy::glwe_copy', 'GLWERotate::glwe_rotate/rotate_assign', 'GLWEMulXpMinusOne::glwe_mul_xp_minus_one']),
+           K('poulpy-cpu-ref', 'verif_kani::c02b', ['c02_glwe_sub_negate_assign__ranks_0_1'], cls='bounded', timeout=900, bound='N=2, ranks (0,1)', functions=['GLWESub::glwe_sub_negate_assign']),
+           K('poulpy-cpu-ref', 'verif_kani::c02', ['c02_glwe_rotate_mul_xp__n4_rank1'], cls='bounded', tier='thorough', timeout=1500, bound='N=4, rank 1, every rotation amount in i64'),
            V('vec_znx_arith'), V('vec_znx_ring')],
     trusted_base=VERUS_TRUST + [FMT_STUB],
     assumptions=['no i64 overflow in limb sums (|x| <= 2^61)'],
